@@ -186,6 +186,32 @@ func (c rCol) rows() int {
 
 func (r *rb) cells(c rCol) {
 	switch {
+	case c.lc && len(c.strs) > 1:
+		// LowCardinality(String), several rows: the dictionary in order of first appearance
+		// (UInt8 keys), then one key per row
+		var dict []string
+		keys := make([]byte, len(c.strs))
+		for i, s := range c.strs {
+			k := -1
+			for j, d := range dict {
+				if d == s {
+					k = j
+				}
+			}
+			if k < 0 {
+				k = len(dict)
+				dict = append(dict, s)
+			}
+			keys[i] = byte(k)
+		}
+		r.u64(1)
+		r.u64(0 | 1<<9 | 1<<10)
+		r.u64(uint64(len(dict)))
+		for _, d := range dict {
+			r.str(d)
+		}
+		r.u64(uint64(len(keys)))
+		r.b = append(r.b, keys...)
 	case c.lc:
 		// LowCardinality(String) with at most one row: nothing at all for no rows (neither the
 		// serialization-state prefix nor the column); otherwise state, meta (UInt8 keys, additional
